@@ -51,6 +51,48 @@ type InputRec struct {
 	Kind  string `json:"kind"` // bool, int<k>, f64, f32, choice
 	term  *Term
 	Value string `json:"value"` // filled from the model / decision
+	// for memoised (uninterpreted-function) answers: the argument values in the
+	// model, so that the native replay can look the answer up by argument
+	// instead of by call order
+	argTerms []*Term
+	Args     []string `json:"args,omitempty"`
+}
+
+// fillModel reads the model values of the inputs (and of memo arguments).
+func fillModel(solver *Solver, inputs []InputRec) []InputRec {
+	var vars []*Term
+	seen := map[*Term]bool{}
+	add := func(t *Term) {
+		if t != nil && !t.isLit && !seen[t] {
+			seen[t] = true
+			vars = append(vars, t)
+		}
+	}
+	for _, in := range inputs {
+		add(in.term)
+		for _, a := range in.argTerms {
+			add(a)
+		}
+	}
+	vals := solver.Values(vars)
+	out := make([]InputRec, len(inputs))
+	copy(out, inputs)
+	for i := range out {
+		if out[i].term != nil {
+			out[i].Value = vals[out[i].term.ref()]
+		}
+		if len(out[i].argTerms) > 0 {
+			out[i].Args = make([]string, len(out[i].argTerms))
+			for j, a := range out[i].argTerms {
+				if a.isLit {
+					out[i].Args[j] = a.op
+				} else {
+					out[i].Args[j] = vals[a.ref()]
+				}
+			}
+		}
+	}
+	return out
 }
 
 type Finding struct {
@@ -124,6 +166,7 @@ type Machine struct {
 type memoEntry struct {
 	args []*Term
 	ans  *Term
+	vals []value
 }
 
 func (m *Machine) resetPath(prefix []int) {
@@ -301,21 +344,7 @@ func (m *Machine) freshInternal(prefix string, key *Term, s Sort) *Term {
 }
 
 func (m *Machine) modelInputs() []InputRec {
-	var vars []*Term
-	for _, in := range m.inputs {
-		if in.term != nil {
-			vars = append(vars, in.term)
-		}
-	}
-	vals := m.solver.Values(vars)
-	out := make([]InputRec, len(m.inputs))
-	copy(out, m.inputs)
-	for i := range out {
-		if out[i].term != nil {
-			out[i].Value = vals[out[i].term.op]
-		}
-	}
-	return out
+	return fillModel(m.solver, m.inputs)
 }
 
 func (m *Machine) stack() []string {
@@ -541,20 +570,7 @@ func runAsyncJob(solver *Solver, job *asyncJob) (out asyncResult) {
 	}
 	out.res = r
 	if r == Sat {
-		var vars []*Term
-		for _, in := range job.inputs {
-			if in.term != nil {
-				vars = append(vars, in.term)
-			}
-		}
-		vals := solver.Values(vars)
-		out.inputs = make([]InputRec, len(job.inputs))
-		copy(out.inputs, job.inputs)
-		for i := range out.inputs {
-			if out.inputs[i].term != nil {
-				out.inputs[i].Value = vals[out.inputs[i].term.op]
-			}
-		}
+		out.inputs = fillModel(solver, job.inputs)
 	}
 	solver.PopAll()
 	return out
